@@ -67,7 +67,6 @@ theorem wuffs_deflate_refines_spec_partial (s out : Bytes) (n : Nat) (hdyn : Dyn
   · rename_i hdone
     simp only [Option.some.injEq, Prod.mk.injEq] at h
     obtain ⟨h1, h2⟩ := h
-    simp only at hdone
     subst hdone
     have hr' : blocks s none 0 (8 * s.size + 1) 0 #[] = ⟨.done, rp, ro⟩ := hr
     obtain ⟨st', e1, e2, e3⟩ := decodeBlocks_spec hdyn (8 * s.size + 1) {} 0 #[] Reach.start (deflate_init_inv s) rfl
@@ -115,6 +114,6 @@ example (h : Flate.Spec.inflate #[0x4b, 0x04, 0x00] = some (#[0x61], 3)) :
 
 /-- non-vacuity of the stored case, both sides evaluated: a final stored block holding "A" -/
 example : Flate.Spec.inflate #[0x01, 0x01, 0x00, 0xfe, 0xff, 0x41] = some (#[0x41], 6) := by decide +kernel
-example : StdDeflate.inflate #[0x01, 0x01, 0x00, 0xfe, 0xff, 0x41] = .ok (#[0x41], 6) := by decide +kernel
+example : (StdDeflate.inflate #[0x01, 0x01, 0x00, 0xfe, 0xff, 0x41]).toOption = some (#[0x41], 6) := by decide +kernel
 
 end WuffsVerif.Props.C07
